@@ -114,6 +114,29 @@ Section TOP.
     replace ((p_d P - 1) * p_hp P)%nat with (p_h P - p_hp P)%nat by nia. exact Ltree.
   Qed.
 
+  (* ---------- verifyInternal in the shape of FIPS 205 Algorithm 20 ---------- *)
+  Definition verifyInternalS (pkSeed pkRoot msg sig : bytes) : bool :=
+    let forsIdx := (1 + p_k P * (1 + p_a P))%nat in
+    if negb (Nat.eqb (length sig) (sig_len P)) then false else
+    let R := firstn n sig in
+    let sigFors := firstn (forsIdx * n - n) (skipn n sig) in
+    let sigHT := skipn (forsIdx * n) sig in
+    let '(md, idxTree, idxLeaf) := split_digest P (hHMsg HS R pkSeed pkRoot msg) in
+    htVerifyS P HS (forsPkFromSigS P HS 0 idxTree idxLeaf (base2b md (p_a P) (p_k P)) sigFors pkSeed)
+              sigHT pkSeed idxTree idxLeaf pkRoot.
+
+  Theorem verifyInternal_fips : forall pkSeed pkRoot msg sig,
+    verifyInternal P HS pkSeed pkRoot msg sig = verifyInternalS pkSeed pkRoot msg sig.
+  Proof.
+    intros. unfold verifyInternal, verifyInternalS.
+    destruct (negb (length sig =? sig_len P)%nat); [reflexivity|].
+    destruct (split_digest P _) as [[md idxTree] idxLeaf].
+    match goal with |- context [forsPkFromSig P HS ?s md pkSeed ?a] =>
+      destruct (forsPkFromSig_spec P HS s md pkSeed a eq_refl) as [A B];
+      destruct (forsPkFromSig P HS s md pkSeed a) as [pkFors ad1] end.
+    simpl in A. rewrite htVerify_spec, A. reflexivity.
+  Qed.
+
   (* ---------- the API level: keys as encoded, context wrapper ---------- *)
   Theorem verify_sign : hashes_ok P HS -> params_wf P -> forall skSeed skPrf pkSeed msg ctx addrnd,
     length skSeed = n -> length skPrf = n -> length pkSeed = n -> (length ctx <= 255)%nat ->
